@@ -14,7 +14,7 @@
 (* descriptor ready (feeds / drains the pipe) at any time.                 *)
 (*                                                                         *)
 (* One action per stretch between two schedule points of the real code     *)
-(* (hooks io.ep.<r|w>.*):  start_io = syscall | construct stop callback |  *)
+(* (hooks named io.ep.r.xxx, io.ep.w.xxx): start_io = syscall | construct stop callback |  *)
 (* EPOLL_CTL_ADD ;  on_complete = destruct callback | fetch_add | DEL |    *)
 (* syscall+completion ;  request_stop = fetch_add | DEL | schedule done ;  *)
 (* complete_with_done.  The run loop and its queues are abstract (the      *)
@@ -79,7 +79,7 @@ EnvReady == /\ Good /\ feeds > 0 /\ ~ready /\ ready' = TRUE /\ feeds' = feeds - 
 EnvFault == /\ Good /\ WithFault /\ ~fault /\ fault' = TRUE /\ ready' = TRUE      \* a broken descriptor polls as ready (EPOLLERR/HUP)
             /\ UNCHANGED <<feeds, epollReg, localQ, remoteQ, ost, alive, ioCnt, cancelCnt, cb, cEnq, dEnq, stopReq, stopMode, where,
                            iopc, ioOp, afterCb, spc, result, completions, taken, next, bad>>
-Prev(o) == o = 1 \/ ost[o - 1] = "completed"
+Prev(o) == IF o = 1 THEN TRUE ELSE ost[o - 1] = "completed"
 \* op.start() from a remote thread: schedule_remote(on_schedule_complete)
 StartRemote(o) ==
   /\ Good /\ o = next /\ Prev(o) /\ where[o] = "remote" /\ ost[o] = "idle"
